@@ -19,6 +19,15 @@ chk("C11", "proof",
     COMMON_NOTE + "Not modelled: getline buffer truncation, TMCG_CardSecret/keys/group state texts (implementation-level round-trip oracle only).",
     "Coq proof (round-trip theorems) + extracted-model differential correspondence", "DESIGN.md §5 C11")
 
+chk("C14", "proof",
+    "Coq proof (all schedules, all inputs, all n) on an executable model of CachinKursawePetzoldShoupRBC of: FIFO order and no duplicate delivery on FIFO channels, "
+    "channel isolation of Deliver/DeliverFrom (also over every network schedule with Byzantine injection), counter recovery across setID/unsetID/recoverID; "
+    "machine-checked refutation of no-duplicate delivery on non-FIFO channels (known finding F8); quorum-intersection counting lemma proved, the full agreement/integrity "
+    "network invariant and liveness are NOT proved: they are checked by the oracle of the correspondence run on systematic (n=4,t=1) and randomized (n<=7) schedules of the real class. "
+    "The model is compared call by call with the real class on an in-memory transport with harness-owned scheduling (~125k calls per quick run).",
+    COMMON_NOTE + "Partial: agreement, integrity, delivery at quiescence are tested, not proved; real time-outs, Sync and OS buffering are not modelled; digests modelled as payloads.",
+    "Coq invariants over all schedules + extracted-model correspondence on in-memory transport", "DESIGN.md §5 C14, docs/C14.md")
+
 NOT_YET = {}
 ALL = ["C%02d" % i for i in range(1, 21)]
 for p in ALL:
